@@ -307,6 +307,16 @@ def r02_2(prog, rep):
             rep.fail(rid, "__make_evrdat/sorted", rd.loc(bad[0]), "events are spread from the date list before it is sorted")
         else:
             rep.ok(rid, "__make_evrdat/sorted", rd.loc(so_.line), "echs_instant_sort precedes the spreading loop; the unsorted path handles exactly one date")
+        # nothing that can reorder instants (zone shifts, pasting the proto time) may run after the sort
+        REORDER = ("instant_soup", "echs_tzob_shift", "echs_instant_utc", "echs_instant_loc", "echs_instant_to_utc", "echs_instant_add", "echs_instant_fixup")
+        late, _ = forward_scan(rcfg, (so_.b, so_.i), lambda b_, i_, x_: "hit" if elem_has_call(x_, REORDER) else None)
+        if late:
+            b_, i_ = late[0]
+            rep.fail(rid, "__make_evrdat/no-reordering-after-sort", rd.loc(rcfg.blocks[b_].elems[i_].get("line")),
+                     "the date list is sorted and only then normalised (%s): a DATE value and a DATE-TIME of the same day can change order, the filter/mux rely on a sorted stream" % (
+                         show(rcfg.resolve(rcfg.elem(b_, i_)))[:70]))
+        else:
+            rep.ok(rid, "__make_evrdat/no-reordering-after-sort", rd.loc(so_.line), "all zone/time normalisation precedes the sort; only the (monotone) rescale follows it")
         # sort operates on the copied array with the full count
         a0, a1 = lv(rcfg.resolve(so_.node["a"][0])), lv(rcfg.resolve(so_.node["a"][1]))
         if a1 == nd:
